@@ -245,8 +245,15 @@ def use_rules(ctx):
         ok = len(ed) == 1 and ctx.S.slice_operand(b, ed[0].args[0]).has_field(INST, 'decision_variable_dependency')
         ctx.check(ok, 'C04.use/%s/calls-eval_dependencies' % item, 'T-MUSTCALL', b.name, 'eval_dependencies is not applied to the dependency map', b.site())
         errflow_calls(ctx, 'C04.use/%s/error' % item, b, ed, 'eval_dependencies')
+        # variables without a value must still be missing when the dependencies are evaluated: a default
+        # filled in earlier would hide cyclic / unsatisfiable dependencies and feed placeholders into chains
+        vac = [c for c in b.calls if c.item == 'insert' and 'VacantEntry' in c.name]
+        if ed:
+            early = [b.site(c.bb) for c in vac if not b.dominates(ed[0].bb, c.bb)]
+            ctx.check(not early, 'C04.use/%s/no-defaults-before-dependencies' % item, 'T-MUSTCALL', b.name,
+                      'omitted variables are filled with default values before eval_dependencies runs (%s)' % early, b.site(ed[0].bb))
 
 
 def check(ctx):
     instance_rules(ctx); function_rules(ctx); deps_rules(ctx); use_rules(ctx)
-    ctx.floor('C04.instance', 30); ctx.floor('C04.function', 14); ctx.floor('C04.deps', 12); ctx.floor('C04.use', 4)
+    ctx.floor('C04.instance', 30); ctx.floor('C04.function', 14); ctx.floor('C04.deps', 12); ctx.floor('C04.use', 6)
